@@ -10,6 +10,7 @@ ASSUMPTIONS = ['A1: float arithmetic treated as real arithmetic',
 def build(R):
     records.install(R)
     cache_model.install(R)
+    cache_model.install_generators(R)
 
 
 def configure(ctx, R):
